@@ -48,6 +48,7 @@ func paramsSx(ps rux.Params) Sx {
 }
 
 type rtRouter struct {
+	meths  []Sx
 	decoy  *rux.Router
 	r      *rux.Router
 	regs   []Sx
@@ -130,12 +131,16 @@ func rtBuild(c Sx, caching bool) *rtRouter {
 				}
 			}()
 			ms := d.List[0].Strs()
+			var rt *rux.Route
 			if len(ms) == 1 && i%3 == 1 && h != nil && rpShortcut(rr.r, ms[0]) != nil {
 				// the per-method shortcut, named afterwards: the same registration
-				rpShortcut(rr.r, ms[0])(d.List[1].Str(), h).NamedTo(name, rr.r)
-				return true
+				rt = rpShortcut(rr.r, ms[0])(d.List[1].Str(), h)
+				rt.NamedTo(name, rr.r)
+			} else {
+				rt = rr.r.AddNamed(name, d.List[1].Str(), h, ms...)
 			}
-			rr.r.AddNamed(name, d.List[1].Str(), h, ms...)
+			// the method names the route is stored under
+			rr.meths = append(rr.meths, L(A("meths"), I(i), SL(rt.Methods())))
 			return true
 		}()
 		if ok {
@@ -144,6 +149,7 @@ func rtBuild(c Sx, caching bool) *rtRouter {
 			rr.regs = append(rr.regs, A("panic"))
 		}
 	}
+	rr.regs = append(rr.regs, rr.meths...)
 	if lateOpt { // options may only be applied while the router has no routes
 		ok := func() (ok bool) {
 			defer func() {
